@@ -60,21 +60,21 @@ def pipe_model_jobs(thorough, part):
     """part: 'c04' | 'c05' | 'c03'"""
     jobs = []
     if part == 'c04':
-        jobs += [J('pipe', 'Pipe', 'MC_quick.cfg', workers=6),
-                 J('pipe', 'Pipe', 'MC_neg_entryrace.cfg', 'NoHang', 2), J('pipe', 'Pipe', 'MC_neg_nodrain.cfg', 'NoHang', 2),
-                 J('pipe', 'Pipe', 'MC_neg_nodeferred.cfg', 'NoHang', 2), J('pipe', 'Pipe', 'MC_neg_closekeeps.cfg', 'NoHang', 2),
-                 J('pipe', 'Pipe', 'MC_live_break.cfg', workers=4)]
+        jobs += [J('fault', 'Pipe', 'MC_quick.cfg', workers=6),
+                 J('fault', 'Pipe', 'MC_neg_entryrace.cfg', 'NoHang', 2), J('fault', 'Pipe', 'MC_neg_nodrain.cfg', 'NoHang', 2),
+                 J('fault', 'Pipe', 'MC_neg_nodeferred.cfg', 'NoHang', 2), J('fault', 'Pipe', 'MC_neg_closekeeps.cfg', 'NoHang', 2),
+                 J('fault', 'Pipe', 'MC_live_break.cfg', workers=4)]
         if thorough:
-            jobs += [J('pipe', 'Pipe', 'MC_thorough.cfg', workers=8, timeout=3000), J('pipe', 'Pipe', 'MC_thorough3.cfg', workers=8, timeout=3000),
-                     J('pipe', 'Pipe', 'MC_live_close.cfg', workers=4, timeout=3000),
-                     J('pipe', 'Pipe', 'MC_live_neg_entryrace.cfg', 'BreakReturns', 2)]
+            jobs += [J('fault', 'Pipe', 'MC_thorough.cfg', workers=8, timeout=3000), J('fault', 'Pipe', 'MC_thorough3.cfg', workers=8, timeout=3000),
+                     J('fault', 'Pipe', 'MC_live_close.cfg', workers=4, timeout=3000),
+                     J('fault', 'Pipe', 'MC_live_neg_entryrace.cfg', 'BreakReturns', 2)]
     elif part == 'c05':
-        jobs += [J('pipe', 'Pipe', 'MC_quick_ctx.cfg', workers=4), J('pipe', 'Pipe', 'MC_live_ctx.cfg', workers=4),
-                 J('pipe', 'Pipe', 'MC_live_ring.cfg', 'CtxDoneReturns', 2)]
+        jobs += [J('fault', 'Pipe', 'MC_quick_ctx.cfg', workers=4), J('fault', 'Pipe', 'MC_live_ctx.cfg', workers=4),
+                 J('fault', 'Pipe', 'MC_live_ring.cfg', 'CtxDoneReturns', 2)]
         if thorough:
-            jobs += [J('pipe', 'Pipe', 'MC_thorough_all.cfg', workers=8, timeout=3000)]
+            jobs += [J('fault', 'Pipe', 'MC_thorough_all.cfg', workers=8, timeout=3000)]
     elif part == 'c03':
-        jobs += [J('pipe', 'Pipe', 'MC_quick_exp.cfg', workers=4), J('pipe', 'Pipe', 'MC_expiry_asis.cfg', 'ExpiredOnlyIfNotExecuted', 2)]
+        jobs += [J('fault', 'Pipe', 'MC_quick_exp.cfg', workers=4), J('fault', 'Pipe', 'MC_expiry_asis.cfg', 'ExpiredOnlyIfNotExecuted', 2)]
     return jobs
 
 
@@ -296,7 +296,7 @@ def report_retry_verdicts(ctx, verdicts, want, cases=()):
 
 # ------------------------------------------------------------------------------------------------- fault scenarios
 def gen_fault_cases(ctx):
-    r = vlib.tlc('pipe', 'FaultGen', 'FaultGen.cfg', workers=1, collect_cases=True, timeout=600)
+    r = vlib.tlc('fault', 'FaultGen', 'FaultGen.cfg', workers=1, collect_cases=True, timeout=600)
     with _lock:
         ctx.tlc_runs.append(r.summary())
         ctx.states += r.distinct
@@ -354,7 +354,7 @@ def _drive_fault(ctx, binp, cases, queue, d, tag, par, absorb=True):
     rep = ctx.run_driver(binp, ['-mode', 'fault', '-cases', cp, '-trace', tp, '-par', str(par)], timeout=2400, env=env)
     if rep is None or not os.path.exists(tp):
         return []
-    verdicts, _ = judge(ctx, 'pipe', 'FaultTrace', 'FaultTrace.cfg', tp)
+    verdicts, _ = judge(ctx, 'fault', 'FaultTrace', 'FaultTrace.cfg', tp)
     return verdicts
 
 
@@ -426,7 +426,7 @@ def report_fault_verdicts(ctx, verdicts, want, cases=()):
 # ------------------------------------------------------------------------------------------------- entry race replay
 def entry_race_schedule():
     """The schedule of TLC's NoHang counterexample in MC_neg_entryrace.cfg (the pinned commit's Do/Close race)."""
-    r = vlib.tlc('pipe', 'Pipe', 'MC_neg_entryrace.cfg', workers=1, timeout=600)
+    r = vlib.tlc('fault', 'Pipe', 'MC_neg_entryrace.cfg', workers=1, timeout=600)
     acts = re.findall(r'^State \d+: <(\w+)(\([^)]*\))? line', r.output, re.M)
     toks = [a + (b or '') for a, b in acts]
     return ','.join(toks), r
